@@ -554,26 +554,26 @@ func writeEvidence(cfg RunConfig, agg *aggregate, race raceOutcome, violations i
 		"lock_contention_events":                st.LockContention,
 		"interleavings_inside_critical_section": st.OverlapEvents,
 		"interleavings_inside_critical_section_with_writer": st.OverlapWithWrite,
-		"porcupine_ok":                  st.PorcupineOK,
-		"porcupine_unknown":             st.PorcupineUnknown,
-		"grey_hits":                     st.GreyEqualUpdates + st.GreyCutoffReads,
-		"grey_equal_time_update_items":  st.GreyEqualUpdates,
-		"grey_cutoff_instant_reads":     st.GreyCutoffReads,
-		"stale_updates":                 st.StaleUpdates,
-		"equal_updates":                 st.EqualUpdates,
-		"out_of_order_updates":          st.OutOfOrder,
-		"cutoff_boundary_updates":       st.BoundaryUpdates,
-		"cutoff_boundary_reads":         st.BoundaryReads,
-		"overflow_pair_reads":           st.OverflowReads,
-		"median_reference_checks":       st.MedianChecks,
-		"served_prices":                 st.ServedPrices,
-		"absent_prices":                 st.AbsentPrices,
-		"server_path_updates":           st.ServerUpdates,
-		"server_path_rejected":          st.ServerRejected,
-		"server_validation_unexpected":  st.ValidationOdd,
-		"histories_per_client_count":    perClients,
-		"workers":                       cfg.Workers,
-		"sim_wall_s":                    simWall,
+		"porcupine_ok":                 st.PorcupineOK,
+		"porcupine_unknown":            st.PorcupineUnknown,
+		"grey_hits":                    st.GreyEqualUpdates + st.GreyCutoffReads,
+		"grey_equal_time_update_items": st.GreyEqualUpdates,
+		"grey_cutoff_instant_reads":    st.GreyCutoffReads,
+		"stale_updates":                st.StaleUpdates,
+		"equal_updates":                st.EqualUpdates,
+		"out_of_order_updates":         st.OutOfOrder,
+		"cutoff_boundary_updates":      st.BoundaryUpdates,
+		"cutoff_boundary_reads":        st.BoundaryReads,
+		"overflow_pair_reads":          st.OverflowReads,
+		"median_reference_checks":      st.MedianChecks,
+		"served_prices":                st.ServedPrices,
+		"absent_prices":                st.AbsentPrices,
+		"server_path_updates":          st.ServerUpdates,
+		"server_path_rejected":         st.ServerRejected,
+		"server_validation_unexpected": st.ValidationOdd,
+		"histories_per_client_count":   perClients,
+		"workers":                      cfg.Workers,
+		"sim_wall_s":                   simWall,
 		"race_subrun": map[string]interface{}{
 			"ran": race.ran, "races": race.races, "workloads": race.runs, "repetitions_per_workload": race.repeat, "wall_s": race.wallS, "note": race.note,
 			"label": "REAL-THREAD STRESS under the Go race detector (separate binary built with -race and WITHOUT the verif tag, i.e. the shipped code paths); this sub-run is NOT deterministic simulation and its silence is weaker evidence than the simulated histories",
@@ -609,7 +609,9 @@ func writeEvidence(cfg RunConfig, agg *aggregate, race raceOutcome, violations i
 			"A writer entering its critical section while another operation is inside is reported as a violation (critical_section_overlap) even if the resulting history happens to be linearizable; reader/reader overlap is only counted.",
 			"Server validation outcomes (zero price / missing time / empty batch rejected) are followed by the model (rejected => no state change) but a wrong validation verdict alone is only counted (server_validation_unexpected), since C20 does not state it.",
 			"Timestamps stay within a few maxAge of 2023-11-14T22:13:20Z; extreme time.Time values (year 1, beyond int64 nanoseconds) are not generated.",
-			"porcupine v1.3.0 and math/big are trusted; the cache's internal maps are observed through unsafe pointers only while every simulated goroutine is parked.",
+			"Every history, its results and its event log are a pure function of (seed, run index) as long as reads of the cache are atomic (verified: identical log hash over 30 processes with GOMAXPROCS 1/4/16). If a code change lets a reader interleave with a writer, the randomised iteration order of the Go map inside ExchangeToPrice.GetValidPrices (not controllable by the scheduler) can change a read result under the same schedule; minimisation and replay therefore re-execute a schedule up to 40 times until the recorded violation kind shows up.",
+			"The watchdog (5 s without progress, counted in monitor ticks) and the porcupine timeout (30 s) are the only uses of the wall clock; both lead to exit 2 / an 'unknown' count, never to a violation.",
+			"porcupine v1.3.0, github.com/petermattis/goid (goroutine id for the hook; cross-checked against runtime.Stack at start-up) and math/big are trusted; the cache's internal maps are observed through unsafe pointers only while every simulated goroutine is parked.",
 		},
 		"coverage": cov,
 	}
